@@ -226,15 +226,20 @@ func (ctx *cmdContext) infoUnlocked(cs *clientState) string {
 		flags.WriteString("N")
 	}
 
+	// cs may be another connection: read its session fields under its lock
+	cs.mu.Lock()
+	csName, csSelectedDb, csRespVersion := cs.name, cs.selectedDb, cs.respVersion
+	cs.mu.Unlock()
+
 	info = append(info,
 		fmt.Sprintf("id=%d", cs.id),
-		"name="+cs.name,
-		fmt.Sprintf("db=%d", cs.selectedDb),
+		"name="+csName,
+		fmt.Sprintf("db=%d", csSelectedDb),
 		fmt.Sprintf("multi=%d", multi),
 		fmt.Sprintf("flags=%s", flags.String()),
 		"cmd="+ctx.cmdToken,
 		"user="+cs.user,
-		fmt.Sprintf("resp=%d", cs.respVersion),
+		fmt.Sprintf("resp=%d", csRespVersion),
 	)
 
 	var sb strings.Builder
